@@ -4,6 +4,7 @@ The space is the program grammar: every ordered forest of blocks up to N nodes, 
 and supply, a probe at every position, both probe orders.  Enumerated completely.
 """
 
+import asyncio
 import itertools
 
 from hv import boot  # noqa: F401
@@ -29,7 +30,9 @@ RULE = (
     "updated, async scope fed by disposables}; supply from an 8-element alphabet over {A, A2(A), "
     "R(required attr), G[int]}; probe (ctx.state(T) and ctx.state(T, default) for every T) at "
     "every position, both probe orders; non-trivial = some type is supplied at two nesting levels "
-    "or by two instances in one block, or a subclass is supplied while the base is asked"
+    "or by two instances in one block, or a subclass is supplied while the base is asked; "
+    "extension family (<= 2 blocks): every block additionally ends by return / exception / "
+    "cancellation and is built either inline or ahead of time (at program start) and entered later"
 )
 ASSUMPTIONS = [
     "lookups inside a top-level `ctx.updated` block outside any scope: MissingContext or the "
@@ -66,6 +69,27 @@ def programs(tier: str):
             continue
         for order in ("nd-first", "d-first"):
             yield {"forest": f, "order": order}
+    # extension: blocks left by an exception or a (self-inflicted) cancellation, and blocks whose
+    # context manager object was built earlier (at program start, outside everything) and is only
+    # entered at its position in the forest
+    ext_sup = (0, 1, 2, 5)
+    ext_alpha = [
+        [k, s_, e, p_]
+        for k in KINDS
+        for s_ in ext_sup
+        for e in ("return", "raise", "cancel")
+        for p_ in (False, True)
+    ]
+    small_alpha = [a for a in ext_alpha if a[1] in (1, 2) or (a[1] == 0 and a[0] == "updated")]
+    for a in ext_alpha:
+        yield {"forest": [{"l": list(a), "c": []}], "order": "nd-first"}
+    for a in small_alpha:
+        for b in small_alpha:
+            if a[2] == "return" and not a[3] and b[2] == "return" and not b[3]:
+                continue  # covered by the base family
+            for shape in forest_shapes(2):
+                k += 1
+                yield {"forest": label_forest(shape, [list(a), list(b)]), "order": "nd-first" if k % 2 else "d-first"}
     if tier == "thorough":
         n4 = 0
         for shape in forest_shapes(4):
@@ -92,7 +116,7 @@ def execute(program, ch: Chooser) -> Result:  # noqa: C901, PLR0915
     supplied: dict[int, str] = {}
     keep: list = []
     counter = itertools.count()
-    stats = {"shadow": False, "dup": False, "sub": False}
+    stats = {"shadow": False, "dup": False, "sub": False, "prep": False, "abnormal": False}
 
     def probe(pos: str, env: list[dict], in_scope: bool, soft_root: bool) -> None:
         got = probe_state(supplied, order)
@@ -112,17 +136,42 @@ def execute(program, ch: Chooser) -> Result:  # noqa: C901, PLR0915
                 )
         probes.append((pos, {k: list(v) for k, v in got.items()}))
 
+    class BodyErr(Exception):
+        pass
+
+    rt: dict[int, dict] = {}
+
+    def build(b):
+        kind, sidx = b["l"][0], b["l"][1]
+        r = rt[id(b)]
+        if kind in ("ascope", "sscope"):
+            return ctx.scope(r["label"], *r["states"])
+        if kind == "updated":
+            return ctx.updated(*r["states"])
+        return ctx.scope(r["label"], disposables=disposables_for(r["states"]))
+
+    def prepare(blocks):
+        for b in blocks:
+            label = f"b{next(counter)}"
+            names = SUPPLY[b["l"][1]]
+            states = make_states(names, label)
+            keep.extend(states)
+            rt[id(b)] = {"label": label, "states": states, "names": names, "cm": None}
+            for st in states:
+                supplied[id(st)] = st.tag
+            if len(b["l"]) > 3 and b["l"][3]:
+                rt[id(b)]["cm"] = build(b)  # built now, entered later
+                stats["prep"] = True
+            prepare(b["c"])
+
     async def run(blocks, env: list[dict], in_scope: bool, soft_root: bool, path: str):
         probe(f"{path}:pre", env, in_scope, soft_root)
         for i, b in enumerate(blocks):
-            kind, sidx = b["l"]
-            label = f"b{next(counter)}"
-            names = SUPPLY[sidx]
-            states = make_states(names, label)
-            keep.extend(states)
+            kind = b["l"][0]
+            ending = b["l"][2] if len(b["l"]) > 2 else "return"
+            r = rt[id(b)]
             level: dict[str, str] = {}
-            for st, nm in zip(states, names):
-                supplied[id(st)] = st.tag
+            for st, nm in zip(r["states"], r["names"]):
                 if nm in level:
                     stats["dup"] = True
                 level[nm] = st.tag
@@ -132,21 +181,33 @@ def execute(program, ch: Chooser) -> Result:  # noqa: C901, PLR0915
                 stats["sub"] = True
             env2 = [*env, level]
             here = f"{path}/{i}"
-            if kind == "ascope":
-                async with ctx.scope(label, *states):
-                    await run(b["c"], env2, True, False, here)
-            elif kind == "sscope":
-                with ctx.scope(label, *states):
-                    await run(b["c"], env2, True, False, here)
-            elif kind == "updated":
-                with ctx.updated(*states):
-                    await run(b["c"], env2, True, soft_root or not in_scope, here)
-            else:
-                async with ctx.scope(label, disposables=disposables_for(states)):
-                    await run(b["c"], env2, True, False, here)
+            cm = r["cm"] if r["cm"] is not None else build(b)
+            soft2 = (soft_root or not in_scope) if kind == "updated" else False
+
+            async def body():
+                await run(b["c"], env2, True, soft2, here)
+                if ending == "raise":
+                    raise BodyErr()
+                if ending == "cancel":
+                    asyncio.current_task().cancel()
+                    await asyncio.sleep(0)
+
+            try:
+                if kind in ("ascope", "dscope"):
+                    async with cm:
+                        await body()
+                else:
+                    with cm:
+                        await body()
+            except BodyErr:
+                stats["abnormal"] = True
+            except asyncio.CancelledError:
+                stats["abnormal"] = True
+                asyncio.current_task().uncancel()
             probe(f"{here}:post", env, in_scope, soft_root)
 
     try:
+        prepare(forest)
         task = loop.create_task(run(forest, [], False, False, ""))
         loop.run_ready()
         if not task.done():
@@ -154,8 +215,8 @@ def execute(program, ch: Chooser) -> Result:  # noqa: C901, PLR0915
         exc = task.exception()
         if exc is not None:
             viols.append(viol("driver", type(exc).__name__, "program runs", repr(exc)[:200]))
-        nontrivial = stats["shadow"] or stats["dup"] or stats["sub"]
-        outcome = f"shadow={stats['shadow']}/dup={stats['dup']}/sub={stats['sub']}/probes={min(len(probes), 9)}"
+        nontrivial = stats["shadow"] or stats["dup"] or stats["sub"] or stats["prep"] or stats["abnormal"]
+        outcome = f"shadow={stats['shadow']}/dup={stats['dup']}/sub={stats['sub']}/prep={stats['prep']}/abn={stats['abnormal']}/probes={min(len(probes), 9)}"
         return Result(outcome, nontrivial, viols[:4], {"probes": probes[:12]}, steps=len(probes) + 2 * next(counter))
     finally:
         loop.shutdown()
